@@ -89,6 +89,17 @@ def run_case(rs, ctx):
         rs, cfg, sh, int(rs.integers(5, 10)),
         ["partial_fit", "predict", "predict_expectations", "predict", "add_arm", "remove_arm", "warm_start", "fit"]) + \
         gen.gen_ops(rs, cfg, sh, 2, ["predict_expectations", "predict"])
+    if p == "none" and l != "rnd" and len(cfg["arms"]) >= 3 and rs.integers(3) > 0:
+        # a warm start whose nearest trained arm is not unique (identical feature vectors, different learned state): any
+        # tie-break that depends on set / hash order shows up across interpreters with different hash seeds
+        cold = cfg["arms"][-1]
+        trained = cfg["arms"][:-1]
+        ops[0]["d"] = [a if a != cold else gen.pick(rs, trained) for a in ops[0]["d"]]
+        ops[0]["d"][:len(trained)] = list(trained)
+        feats = [[a, [1.0, 2.0]] for a in trained] + [[cold, [2.0, 1.0]]]
+        tie = {"op": "warm_start", "features": feats, "q": 1.0}
+        ops = [ops[0], tie] + [o for o in ops[1:] if o["op"] not in ("fit",)]
+        ops = [o for i, o in enumerate(ops) if i < 2 or not (o["op"] == "remove_arm")]
     others = [gen_other(rs, cfg, same_kind=(j < 2)) for j in range(int(rs.integers(3, 6)))]
     wit = {"cfg": cfg, "ops": ops, "others": [{"cfg": o["cfg"], "ops": [gen.short(x) for x in o["ops"]],
                                                 "reuse_policy_objects": o["reuse_policy_objects"]} for o in others]}
